@@ -123,7 +123,7 @@ func newEqualExprNode() ExprNode { return &equalExprNode{} }
 func (ee *equalExprNode) Run(ctx context.Context, currField string, tagExpr *TagExpr) interface{} {
 	v0 := ee.leftOperand.Run(ctx, currField, tagExpr)
 	v1 := ee.rightOperand.Run(ctx, currField, tagExpr)
-	if v0 == v1 {
+	if interfaceEqual(v0, v1) {
 		return true
 	}
 	if s0, ok := toFloat64(v0, false); ok {
@@ -147,6 +147,18 @@ func (ee *equalExprNode) Run(ctx context.Context, currField string, tagExpr *Tag
 		return v1 == nil
 	}
 	return false
+}
+
+// interfaceEqual reports v0 == v1; values of an uncomparable dynamic type
+// (slice, map, func, or a struct holding one) are never equal instead of
+// making the comparison panic.
+func interfaceEqual(v0, v1 interface{}) (eq bool) {
+	defer func() {
+		if recover() != nil {
+			eq = false
+		}
+	}()
+	return v0 == v1
 }
 
 type notEqualExprNode struct{ equalExprNode }
